@@ -287,3 +287,51 @@ Proof.
   - rewrite Ers in E. pose proof (c04_read_file_skel _ _ _ Hrf E Hb) as Hp. rewrite Hp0, Hp.
     destruct Halt as [Hbad|Hsame]; [|exact Hsame]. exfalso. apply Hbad. now rewrite <- Hp.
 Qed.
+
+(* ---- non-vacuity ---------------------------------------------------------------------------------- *)
+
+(* the written lines of the generated example file of C01 (two standard batches, addenda) *)
+Definition vx : fileS := struct_of LT ex_std.
+Definition vx_hash : pcol := mkpcol (RCBatchCtl KStd) "EntryHash" 10 20 CKNum.
+Definition vx_amount : pcol := mkpcol (RCEntry KStd) "Amount" 29 39 CKNum.
+Definition vx_count : pcol := mkpcol (RCFileCtl false) "EntryAddendaCount" 13 21 CKNum.
+
+Ltac ulines :=
+  match goal with |- Forall uline ?l => let ls := fresh in set (ls := l); vm_compute in ls; subst ls end;
+  repeat (constructor; [unfold uline; repeat split; vm_compute; reflexivity|]); constructor.
+
+Lemma vx_utf8 : utf8_records vx.
+Proof. unfold utf8_records. ulines. Qed.
+
+Lemma vx_ok :
+  file_typed vx = true /\ bridge_okb LT vx = true /\ accept_code LT RT AT (write CRLF_b vx) = 0
+  /\ In vx_hash protected_columns /\ In vx_amount protected_columns /\ In vx_count protected_columns
+  /\ site_class vx (SBatchCtl 0) = Some (p_class vx_hash) /\ site_class vx (SEntry 0 0) = Some (p_class vx_amount)
+  /\ site_class vx SFileCtl = Some (p_class vx_count).
+Proof. repeat split; vm_compute; auto 50. Qed.
+
+Lemma vx_accepted : exists g, accepts LT RT AT (write CRLF_b vx) = Some g.
+Proof. destruct (accepts LT RT AT (write CRLF_b vx)) as [g|] eqn:E; [now exists g|]. vm_compute in E. discriminate E. Qed.
+
+(* one digit replaced in the entry hash of the first batch control, in the amount of the first entry
+   (its first digit: the column a seeded fast path skipped), in the first digit of the file control's
+   entry/addenda count (the column a seeded slice skipped): still typed structured files on which the
+   readers agree, and rejected (1 = Read fails, 3 = File.Validate fails) *)
+Lemma vx_tampered :
+  let t1 := tamper vx (SBatchCtl 0) (10 + 9) 55 in
+  let t2 := tamper vx (SEntry 0 0) (29 + 0) 55 in
+  let t3 := tamper vx SFileCtl (13 + 0) 55 in
+  (file_typed t1 = true /\ bridge_okb LT t1 = true /\ accept_code LT RT AT (write CRLF_b t1) = 1)
+  /\ (file_typed t2 = true /\ bridge_okb LT t2 = true /\ accept_code LT RT AT (write CRLF_b t2) = 1)
+  /\ (file_typed t3 = true /\ bridge_okb LT t3 = true /\ accept_code LT RT AT (write CRLF_b t3) = 3).
+Proof. vm_compute. repeat split; reflexivity. Qed.
+
+Lemma vx_tampered_utf8 : utf8_records (tamper vx (SBatchCtl 0) (10 + 9) 55).
+Proof. unfold utf8_records. ulines. Qed.
+
+(* truncation: cut in the middle of the second batch (rejected, control record lost), inside the
+   file control record before / behind its last significant column, inside the filler *)
+Lemma vx_truncated :
+  map (fun k => accept_code LT RT AT (firstn k (write CRLF_b vx))) [400; 96 * 11 + 30; 96 * 11 + 54; 96 * 11 + 55; 96 * 11 + 94; 96 * 12 + 1; 96 * 12 + 2]
+  = [1; 3; 3; 0; 0; 1; 0] /\ List.length (record_lines vx) = 12.
+Proof. vm_compute. split; reflexivity. Qed.
